@@ -6,6 +6,7 @@ CONSTANTS NP = 2
   ProbeHws <- PHws
   InitSets <- Init2h
   MaxEarly = 1
+  LisModes <- LisNone
   D = 0
 INIT Init
 NEXT Next
